@@ -165,24 +165,26 @@ def multipleOf(validator, dB, instance, schema):
     if not validator.is_type(instance, "number"):
         return
 
-    if isinstance(dB, float):
-        quotient = instance / dB
-        try:
+    try:
+        if isinstance(dB, float):
+            quotient = instance / dB
             failed = int(quotient) != quotient
-        except OverflowError:
-            # When `instance` is large and `dB` is less than one,
-            # quotient can overflow to infinity; and then casting to int
-            # raises an error.
-            #
-            # In this case we fall back to Fraction logic, which is
-            # exact and cannot overflow.  The performance is also
-            # acceptable: we try the fast all-float option first, and
-            # we know that fraction(dB) can have at most a few hundred
-            # digits in each part.  The worst-case slowdown is therefore
-            # for already-slow enormous integers or Decimals.
-            failed = (Fraction(instance) / Fraction(dB)).denominator != 1
-    else:
-        failed = instance % dB
+        else:
+            failed = instance % dB
+    except OverflowError:
+        # When `instance` is large and `dB` is less than one,
+        # quotient can overflow to infinity; and then casting to int
+        # raises an error.  Likewise an integer that is too large to
+        # be converted to a float raises when it is divided by (or
+        # used as the modulus of) a float.
+        #
+        # In these cases we fall back to Fraction logic, which is
+        # exact and cannot overflow.  The performance is also
+        # acceptable: we try the fast all-float option first, and
+        # we know that fraction(dB) can have at most a few hundred
+        # digits in each part.  The worst-case slowdown is therefore
+        # for already-slow enormous integers or Decimals.
+        failed = (Fraction(instance) / Fraction(dB)).denominator != 1
 
     if failed:
         yield ValidationError("%r is not a multiple of %r" % (instance, dB))
